@@ -47,7 +47,7 @@ func RunningNbio(dump string) string {
 		if m == nil {
 			continue
 		}
-		if (strings.HasPrefix(m[2], "running") || strings.HasPrefix(m[2], "runnable") || strings.HasPrefix(m[2], "syscall")) && strings.Contains(p, "github.com/lesismal/nbio") {
+		if (strings.HasPrefix(m[2], "running") || strings.HasPrefix(m[2], "runnable") || (strings.HasPrefix(m[2], "syscall") && !strings.Contains(p, "syscall.EpollWait"))) && strings.Contains(p, "github.com/lesismal/nbio") {
 			if len(p) > 1500 {
 				p = p[:1500]
 			}
